@@ -5,3 +5,4 @@ import XoGen.TieIndex
 import XoGen.TieOrder
 import XoGen.TieBuf
 import XoGen.TieGrow
+import XoGen.TieIter
